@@ -86,6 +86,14 @@ theorem C08_compose_ok (env : Env) (P Q : List Step) (fns : List Fn)
   · cases h
   · exact (Option.some.inj h).symm
 
+/-- for the transport to the implementation model (C01 speaks about canonical documents): the
+    values a function-less prefix selects from a canonical document are canonical -/
+theorem C08_prefix_wf (env : Env) (P : List Step) (d : Val) (hd : d.wf = true) :
+    ∀ v ∈ (Spec.run env (.mk .root P []) d).getD [], v.wf = true := by
+  rw [run_getD]
+  simp only [evalPath, applyFns, Option.getD_some]
+  exact BD.evalSteps_wf env d P [d] (by simpa using hd)
+
 /-- hypotheses satisfiable: `$.a[*]` followed by `[?(@.x)].y.f()` -/
 example : (∀ f ∈ [Fn.ffn ".f()" "f"], isFfn f = true) ∧
     (∀ s ∈ [Step.filter "[?(@.x)]" (.exist false (.mk .cur [.child ".x" "x"] [])), Step.child ".y" "y"], rootFree s) := by
@@ -119,6 +127,23 @@ theorem C08_multi_concat (env : Env) (t t1 t2 : String) (a b : List Name) (root 
     simp only [hab.1, hab.2, if_true, List.flatMap_append]
   | obj kvs => simp only [sel, List.flatMap_append]
   | _ => simp only [sel, List.append_nil]
+
+/-- the unrestricted statement — FALSE, and false of the library itself: on an array a list that
+    mixes a quoted name with `*` selects nothing (`Retrieve("$['a',*]", [1,2])` is the error
+    `type unmatched (expected=object, found=[]interface {}, path=['a',*])`), while `$[*]` alone
+    selects `1, 2` -/
+def C08_multi_concat_full : Prop :=
+  ∀ (env : Env) (t t1 t2 : String) (a b : List Name) (root cur : Val),
+    sel env (.multi t (a ++ b)) root cur = sel env (.multi t1 a) root cur ++ sel env (.multi t2 b) root cur
+
+theorem C08_multi_concat_full_false : ¬ C08_multi_concat_full := by
+  intro h
+  have := h Registry.env "" "" "" [.key "a"] [.wild] .null (.arr [.num 1, .num 2])
+  have e1 : sel Registry.env (.multi "" ([Name.key "a"] ++ [Name.wild])) .null (.arr [.num 1, .num 2]) = [] := rfl
+  have e2 : sel Registry.env (.multi "" [Name.key "a"]) .null (.arr [.num 1, .num 2]) ++
+      sel Registry.env (.multi "" [Name.wild]) .null (.arr [.num 1, .num 2]) = [.num 1, .num 2] := rfl
+  rw [e1, e2] at this
+  cases this
 
 theorem C08_multi_concat_obj (env : Env) (t t1 t2 : String) (a b : List Name) (root : Val)
     (kvs : List (String × Val)) :
@@ -234,4 +259,4 @@ example :
 
 end C08
 end JPV
--- OBLIGATIONS: JPV.C08.C08_sel_root_independent JPV.C08.C08_evalSteps_root_independent JPV.C08.C08_verdicts_root_independent JPV.C08.C08_compose JPV.C08.C08_compose_run JPV.C08.C08_compose_fails_iff JPV.C08.C08_compose_ok JPV.C08.C08_union_concat JPV.C08.C08_union_singles JPV.C08.C08_multi_concat JPV.C08.C08_multi_concat_obj JPV.C08.C08_multi_singles_obj JPV.C08.C08_desc_preorder JPV.C08.C08_containers_preorder JPV.C08.C08_desc_steps JPV.C08.C08_desc_path JPV.C08.C08_desc_path_root
+-- OBLIGATIONS: JPV.C08.C08_sel_root_independent JPV.C08.C08_evalSteps_root_independent JPV.C08.C08_verdicts_root_independent JPV.C08.C08_compose JPV.C08.C08_compose_run JPV.C08.C08_compose_fails_iff JPV.C08.C08_compose_ok JPV.C08.C08_prefix_wf JPV.C08.C08_union_concat JPV.C08.C08_union_singles JPV.C08.C08_multi_concat JPV.C08.C08_multi_concat_full_false JPV.C08.C08_multi_concat_obj JPV.C08.C08_multi_singles_obj JPV.C08.C08_desc_preorder JPV.C08.C08_containers_preorder JPV.C08.C08_desc_steps JPV.C08.C08_desc_path JPV.C08.C08_desc_path_root
